@@ -610,7 +610,7 @@ func init() {
 			Jobs: func(tier string) []Job {
 				var jobs []Job
 				for role := 0; role <= 1; role++ {
-					for sc := 0; sc <= 5; sc++ {
+					for sc := 0; sc <= 7; sc++ {
 						jobs = append(jobs, J(sessPkg, "H_C15_logout", role, sc, 0))
 						if sc != 1 {
 							jobs = append(jobs, J(sessPkg, "H_C15_logout", role, sc, 1))
@@ -619,9 +619,9 @@ func init() {
 				}
 				return jobs
 			},
-			Explanation: "Symbolic steps of the Logout handler, Session.Logout and Session.Stop with the close timeout a symbolic duration (0 included): (0) peer Logout while logged on -> exactly one Logout, not logged on, a repeated Logout is not acknowledged again; (1) local Logout then peer Logout -> nothing transmitted, logout event once; (2) Stop: one Logout, exactly one deadline timer armed with exactly CloseTimeout, context not yet cancelled; peer's Logout -> context cancelled without the timer firing; (3) Stop, no answer, the harness fires the deadline closure -> context cancelled.",
+			Explanation: "Symbolic steps of the Logout handler, Session.Logout and Session.Stop with the close timeout a symbolic duration (0 included): (0) peer Logout while logged on -> exactly one Logout, not logged on, a repeated Logout is not acknowledged again; (1) local Logout then peer Logout -> nothing transmitted, logout event once; (2) Stop: one Logout, exactly one deadline timer armed with exactly CloseTimeout, context not yet cancelled; peer's Logout -> context cancelled without the timer firing; (3) Stop, no answer, the harness fires the deadline closure -> context cancelled; (4) Stop whose Logout is refused by an outgoing handler; (5) answer after a probe; (6/7) local Logout then Stop before the answer -> cancelled by the answer / at the deadline.",
 			Rule:        "case = (role, scenario) x path",
-			Bounds:      map[string]string{"quick": "4 scenarios x 2 roles; CloseTimeout symbolic in [0, 2^40] ns", "thorough": "same"},
+			Bounds:      map[string]string{"quick": "8 scenarios x 2 roles x 2 pre-states; CloseTimeout symbolic in [0, 2^40] ns", "thorough": "same"},
 			Assumptions: append(append([]string{}, sessAssume...), "'at the latest after CloseTimeout' is the contract of time.AfterFunc (recorded stub); scenarios 2/3 are replayed in the engine because the native build cannot fire the timer on demand"),
 			Outside:     "real-time behaviour of time.AfterFunc",
 			Replay:      "engine",
